@@ -104,6 +104,11 @@ func (s *fakeSender) Send(ctx context.Context, t el.EventType, payload interface
 	return el.Status{}, nil
 }
 
+// gateStamp: creation times that run backwards and repeat.
+func gateStamp(seq int) time.Time {
+	return time.Date(2026, 5, 1, 0, 0, 0, 0, time.UTC).Add(-time.Duration(seq/2) * time.Second)
+}
+
 type mGroup struct {
 	id     string
 	events []int
@@ -397,7 +402,8 @@ func runGateSeqOps(rc *RunCtx, prop string, fixed []gateOp, fixedBroker bool) {
 				seq++
 				op.Seq = seq
 				histStr = append(histStr, fmt.Sprintf("event(%s,flush=%v)#%d", op.ID, op.Flush, seq))
-				ev := &el.Event{Type: "t", Payload: &gPayload{ID: op.ID, Flush: op.Flush, Seq: seq, h: h}}
+				// (creation stamps need not follow arrival order: overlapping Sends, a stopped or reset Broker clock)
+				ev := &el.Event{Type: "t", CreatedAt: gateStamp(seq), Payload: &gPayload{ID: op.ID, Flush: op.Flush, Seq: seq, h: h}}
 				out, err := gf.Process(ctx, ev)
 				T := h.now
 				// 1. expired groups, oldest first
